@@ -461,6 +461,12 @@ type tally struct {
 	dist                  map[string]struct{}
 	cls                   map[string]map[string]struct{}
 	viol                  map[string]*found
+	violB                 []violB
+}
+
+type violB struct {
+	sig, what string
+	c         CaseB
 }
 
 func newTally() *tally {
